@@ -24,7 +24,16 @@ def gen(c, max_ops=8):
         return cands[c.int(0, len(cands) - 1)]
 
     for _ in range(max_ops):
-        k = c.int(0, 11)
+        k = c.int(0, 12)
+        if k == 12:
+            # b = sin(a); d = a + b (one cotangent object for a and b); c_ = b[i] (indexed use of b); result c_ + d or d + c_
+            a = pick()
+            s_ = shapes[a]
+            if len(s_) == 0:
+                continue
+            stmts.append(["shared", a, c.int(0, s_[0] - 1), c.bool()])
+            shapes.append(s_)
+            continue
         if k <= 2:
             a = pick()
             stmts.append(["u", UNARY[c.int(0, len(UNARY) - 1)], a])
@@ -141,6 +150,12 @@ def run(prog, x, ns):
             a = vals[st[1]]
             m = onp.shape(a)[0]
             r = ns.dot(_const((m, m), 1), a)
+        elif t == "shared":
+            a = vals[st[1]]
+            b = ns.sin(a)
+            d = a + b
+            c_ = b[st[2]]
+            r = (c_ + d) if st[3] else (d + c_)
         elif t == "cat":
             r = ns.concatenate([vals[st[1]], vals[st[2]]], axis=0)
         else:
